@@ -471,6 +471,41 @@ func c15Check(c *oracleCtx, src string, cfgs []string, trusted, steer bool) {
 	})
 }
 
+// c15Open: the text, placed in two blocks that the input leaves open, is read by the tolerant parser without error, and
+// the comments in front of the end of the input — which now stand in front of the place where the innermost block
+// would close — are printed exactly as when the two closing braces are written.
+func c15Open(c *oracleCtx, body string, cfgs []string) {
+	if !strings.HasSuffix(body, "\n") || strings.Contains(body, "\r") {
+		return
+	}
+	open := "function w() {\nif (q) {\n" + body
+	closed := open + "}}\n"
+	input := map[string]any{"open": true, "src": hexOf(body), "text": open, "cfgs": strings.Join(cfgs, ",")}
+	guard(c, "", input, func() {
+		if c15Class(closed, c15Scan(closed)) != "" {
+			return
+		}
+		cp, cerrs := oaParse(closed)
+		if len(cerrs) > 0 {
+			return
+		}
+		t := parseB("t", open)
+		c.bump("open-blocks")
+		if len(t.errs) > 0 {
+			c.violation("", "tolerant mode reports an error for blocks left open at the end of the input: "+oaErrText(t.errs), input)
+			return
+		}
+		for _, cfg := range append([]string{"c"}, cfgs...) {
+			want, got := oaCompile(cfg, cp), oaCompile(cfg, t.prog)
+			if want != got {
+				in2 := map[string]any{"open": true, "src": hexOf(body), "text": open, "cfgs": cfg, "cfg": cfg, "output": oaClip(got, 800), "output-with-braces-written": oaClip(want, 800)}
+				c.violation("", cfg+": the text with its two blocks left open is printed differently from the same text with the closing braces written: "+firstDiff(want, got), in2)
+				return
+			}
+		}
+	})
+}
+
 // ---------- row renderer ----------
 
 type c15Rend struct {
@@ -729,6 +764,20 @@ func oracleC15(c *oracleCtx) {
 			c.count(in.line)
 			c15Check(c, in.src, []string{"p:2020:1", in.cfg}, false, false)
 		case "rec":
+			if ps := recStr(in.rec, "plugin-src"); ps != "" {
+				c.count(in.line)
+				checkPluginTokens(c, unhex(ps), map[string]any{"plugin-src": ps, "text": unhex(ps)})
+				continue
+			}
+			if b, isOpen := in.rec["open"].(bool); isOpen && b {
+				cfgs := []string{"p:2020:1"}
+				if s := recStr(in.rec, "cfgs"); s != "" {
+					cfgs = strings.Split(s, ",")
+				}
+				c.count(in.line)
+				c15Open(c, in.src, cfgs)
+				continue
+			}
 			if _, ok := in.rec["src"]; ok {
 				cfgs := []string{"p:2020:1"}
 				if s := recStr(in.rec, "cfgs"); s != "" {
@@ -779,6 +828,18 @@ func oracleC15(c *oracleCtx) {
 			fmt.Fprintf(os.Stderr, "C15 sample\n%s\n-- pretty\n%s\n", src, oaCompile("p:2020:1", func() *ast.Program { p, _ := oaParse(src); return p }()))
 		}
 		c15Check(c, src, c15Cfgs(c), true, true)
+		if i%4 == 0 {
+			c15Open(c, src, c15Cfgs(c))
+		}
+	}
+	for _, s := range []string{"a()\n// c\n", "a()\n\n// c1\n// c2\n\n", "b() // t\n", "{\n  a()\n}\n// after\n", "x = 1\n"} {
+		c15Open(c, s, c15PrettyCfgs)
+	}
+
+	// tokens built by a lexer plugin through the exported NewToken carry the comments in front of them like any token
+	for _, s := range []string{"a()\n// c\n@ b\n", "// first\n\n# x\n// second\n~ y // t\n? z\n", "{\n  a\n  // inner\n  ^ b\n}\n"} {
+		c.count(s)
+		checkPluginTokens(c, s, map[string]any{"plugin-src": hexOf(s), "text": s})
 	}
 
 	// the known classes, always replayed
